@@ -60,12 +60,33 @@ def render(ids, crlf=False, style=None, junk=None):
     (extra options, blank lines before the header, a very long header)."""
     nl = b'\r\n' if crlf else b'\n'
     out = []
+    # the encoding declared by the enclosing change / file, if any
+    cenc = {1: None, 2: None}
+
+    def tx(sid, body):
+        # text content under the nearest declared encoding
+        lvl = len(sid) - len(sid.lstrip('.'))
+        eff = 'utf-8'
+
+        if lvl >= 2 and cenc[1]:
+            eff = cenc[1]
+
+        if lvl >= 3 and cenc[2]:
+            eff = cenc[2]
+
+        return body if eff in ('utf-8', 'latin-1') else \
+            body.decode('ascii').encode(eff)
 
     for i, sid in enumerate(ids):
         name = sid.lstrip('.')
         st = style[i] if style and i < len(style) and \
             isinstance(style[i], int) else 0
         extra = b''
+
+        if name == 'change':
+            cenc[1] = cenc[2] = None
+        elif name == 'file':
+            cenc[2] = None
 
         if junk and junk[0] == i:
             # (terminated like the headers, or - every other draw - by a
@@ -107,19 +128,21 @@ def render(ids, crlf=False, style=None, junk=None):
             continue
         elif name == 'preamble' and st & 8 and st & 64:
             # an indented preamble that consists of one empty line
-            out.append(b'#' + sid.encode() + b': indent=4, length=1' +
-                       extra + nl + b'\n')
+            out.append(b'#' + sid.encode() + b': indent=4, length=%d'
+                       % len(tx(sid, b'\n')) + extra + nl + tx(sid, b'\n'))
             continue
         elif name in ('preamble', 'diff') and st & 8 and st & 128:
             # content that starts with empty lines
+            body = b'\n\nx\n' if name == 'diff' else tx(sid, b'\n\nx\n')
             out.append(b'#' + sid.encode() +
-                       b': length=4, line_endings=unix' + extra + nl +
-                       b'\n\nx\n')
+                       b': length=%d, line_endings=unix' % len(body) +
+                       extra + nl + body)
             continue
         elif name in ('preamble', 'diff') and st & 8:
+            body = b'x\n' if name == 'diff' else tx(sid, b'x\n')
             out.append(b'#' + sid.encode() +
-                       b': length=2, line_endings=unix' + extra + nl +
-                       b'x\n')
+                       b': length=%d, line_endings=unix' % len(body) +
+                       extra + nl + body)
             continue
         elif name in ('change', 'file') and st & 4 and st & 8:
             # a length on a container is an option like any other (nothing
@@ -129,8 +152,13 @@ def render(ids, crlf=False, style=None, junk=None):
                        + nl)
             continue
         elif name in ('change', 'file') and st & 4:
-            out.append(b'#' + sid.encode() + b': encoding=latin-1' + extra
-                       + nl)
+            # (an encoding of another width: what follows a sibling that
+            # declared one is read under the parent's again)
+            enc = ['latin-1', 'utf-16-le', 'latin-1', 'utf-32-be'][
+                (st >> 5) % 4]
+            cenc[1 if name == 'change' else 2] = enc
+            out.append(b'#' + sid.encode() + b': encoding=' + enc.encode()
+                       + extra + nl)
             continue
         elif extra and name in ('change', 'file') :
             out.append(b'#' + sid.encode() + b':' + extra[1:] + nl)
@@ -140,7 +168,8 @@ def render(ids, crlf=False, style=None, junk=None):
             out.append(b'#' + sid.encode() + b': encoding=utf-8, version=1.0'
                        + nl)
         elif name == 'preamble':
-            out.append(b'#' + sid.encode() + b': length=2' + nl + b'x\n')
+            out.append(b'#' + sid.encode() + b': length=%d'
+                       % len(tx(sid, b'x\n')) + nl + tx(sid, b'x\n'))
         elif name == 'meta' and st & 16:
             # metadata whose content describes a copy / move / delete: what
             # may follow a section never depends on what the section says
@@ -148,11 +177,13 @@ def render(ids, crlf=False, style=None, junk=None):
                     b'{"old": "a", "new": "b"}}\n',
                     b'{"op": "delete"}\n', b'{"stats": {"files": 0}}\n'][
                         (st >> 6) % 4]
+            body = tx(sid, body)
             out.append(b'#' + sid.encode() + b': format=json, length=%d'
                        % len(body) + nl + body)
         elif name == 'meta':
-            out.append(b'#' + sid.encode() + b': format=json, length=9' + nl
-                       + b'{"k": 1}\n')
+            body = tx(sid, b'{"k": 1}\n')
+            out.append(b'#' + sid.encode() + b': format=json, length=%d'
+                       % len(body) + nl + body)
         elif name == 'diff':
             out.append(b'#' + sid.encode() + b': length=2' + nl + b'x\n')
         else:
